@@ -67,6 +67,37 @@ class World:
         shutil.rmtree(self.base, ignore_errors=True)
 
 
+FAKE_TOOLS = ["ruff", "black", "isort", "autopep8", "yapf", "rustfmt", "cargo", "dotnet", "csharpier", "clang-format", "prettier", "git", "node", "npx", "dos2unix", "unix2dos", "gofmt"]
+
+
+def fake_tools(world: World, seed: int) -> pathlib.Path:
+    """A directory of stand-in developer tools for PATH: "another machine has other tools installed".
+    Every stand-in answers --version with a version made from the seed, `git` prints a seeded hash, and
+    anything else "formats": it appends a seeded marker line to every file (and to every file of
+    every directory) named on its command line, and in filter mode passes stdin through plus the
+    marker.  The generator of the pinned tree starts no process at all, so none of this ever runs
+    unless a change makes the output depend on what happens to be installed."""
+    d = world.path(f"faketools-{seed}")
+    if d.is_dir():
+        return d
+    d.mkdir(parents=True)
+    for name in FAKE_TOOLS:
+        sh = d / name
+        sh.write_text(f"""#!/bin/sh
+for a in "$@"; do case "$a" in --version|-V|-v|version) echo "{name} 9.{seed % 97}.{seed}"; exit 0;; esac; done
+if [ "{name}" = git ]; then echo "{seed:08x}{seed * 7919 % 2**32:08x}"; exit 0; fi
+n=0
+for a in "$@"; do
+  if [ -f "$a" ]; then printf '\n// formatted by {name} {seed}\n' >> "$a"; n=1; fi
+  if [ -d "$a" ]; then for f in "$a"/* "$a"/*/* "$a"/*/*/*; do if [ -f "$f" ]; then printf '\n// formatted by {name} {seed}\n' >> "$f"; fi; done; n=1; fi
+done
+if [ $n = 0 ]; then cat; echo "// formatted by {name} {seed}"; fi
+exit 0
+""")
+        sh.chmod(0o755)
+    return d
+
+
 def env_for(run_seed: int, label: str, rnd: random.Random, default: bool = False) -> Dict[str, Any]:
     """A simulated environment for one generator invocation."""
     if default:
@@ -90,7 +121,9 @@ def env_for(run_seed: int, label: str, rnd: random.Random, default: bool = False
         # another machine / another user
         "machine": rnd.choice([None, None, {"cpu_count": rnd.choice([1, 2, 64]), "hostname": rnd.choice(["build-agent-17", "localhost", "DESKTOP-ÄÖ"]),
                                               "terminal": rnd.choice([[20, 5], [80, 24], [400, 100]]), "user": rnd.choice(["ci", "root", "jürgen"]),
-                                              "home": rnd.choice(["/nonexistent", "/home/ci", "/"]), "columns": rnd.choice(["20", "80", "500"])}]),
+                                              "home": rnd.choice(["/nonexistent", "/home/ci", "/"]), "columns": rnd.choice(["20", "80", "500"]),
+                                              # which developer tools this machine has on PATH (None: whatever is really there)
+                                              "tools": rnd.choice([None, rnd.randrange(1, 10**6)])}]),
         "path_style": rnd.choice(["abs", "abs", "rel", "slash", "dotdot"]),
     }
 
@@ -136,6 +169,8 @@ def run_generator(
         m_ = env["machine"]
         e.update({"USER": m_["user"], "LOGNAME": m_["user"], "USERNAME": m_["user"], "HOME": m_["home"], "COLUMNS": m_["columns"], "LINES": "10",
                   "HOSTNAME": m_["hostname"], "TMPDIR": str(world.base), "CI": "true", "NO_COLOR": "1", "TERM": "dumb"})
+    if (env.get("machine") or {}).get("tools"):
+        e["PATH"] = str(fake_tools(world, env["machine"]["tools"])) + os.pathsep + e.get("PATH", "/usr/bin:/bin")
     style = env.get("path_style") or "abs"
 
     def spell(pth: Optional[str]) -> Optional[str]:
@@ -160,7 +195,7 @@ def run_generator(
     if test_dir is not None:
         cmd += ["--test-dir", test_dir]
     try:
-        p = subprocess.run(cmd, cwd=str(repo), env=e, capture_output=True, timeout=timeout)
+        p = subprocess.run(cmd, cwd=str(repo), env=e, capture_output=True, timeout=timeout, stdin=subprocess.DEVNULL)
         rc, so, se = p.returncode, p.stdout, p.stderr
     except subprocess.TimeoutExpired:
         raise core.HarnessError(f"generator invocation exceeded {timeout}s: {' '.join(cmd)}")
